@@ -26,7 +26,7 @@ class Untranslatable(Exception):
 
 # ---------------------------------------------------------------- Rust boolean expressions over `self.0`
 
-TOK = re.compile(r'\s*(\|\||&&|\.\.=|\.\.|==|!=|<=|>=|<|>|!|\(|\)|\.contains|&self\.0|self\.0|matches!|,|\||[0-9][0-9_]*(?:u16|u32|usize)?|[A-Za-z_][A-Za-z_0-9:]*)')
+TOK = re.compile(r"""\s*(\|\||&&|\.\.=|\.\.|==|!=|<=|>=|<|>|!|\(|\)|\.contains|&self\.0|self\.0|matches!|,|\||0x[0-9a-fA-F_]+|[0-9][0-9_]*(?:u8|u16|u32|usize)?|b'[^'\\]'|[A-Za-z_][A-Za-z_0-9:]*)""")
 
 
 def tokenize(src):
@@ -42,7 +42,12 @@ def tokenize(src):
 
 
 def intlit(t):
-    t = re.sub(r'(u16|u32|usize)$', '', t).replace('_', '')
+    if re.fullmatch(r"b'[^'\\]'", t):
+        return ord(t[2])
+    t = t.replace('_', '')
+    if re.fullmatch(r'0x[0-9a-fA-F]+', t):
+        return int(t, 16)
+    t = re.sub(r'(u8|u16|u32|usize)$', '', t)
     if not t.isdigit():
         raise Untranslatable('not an integer literal: %r' % t)
     return int(t)
@@ -132,7 +137,7 @@ class P:
             if op not in m:
                 raise Untranslatable('comparison %r' % op)
             return m[op] % n
-        if t is not None and t[0].isdigit():
+        if t is not None and (t[0].isdigit() or t.startswith("b'")):
             n = intlit(self.eat())
             op = self.eat()
             self.eat('self.0')
@@ -234,6 +239,39 @@ def lean_ident(rel, name):
     return 'c_%s_%s' % (base, name)
 
 
+def safe_char_pred():
+    """`is_safe_char(c)`: `let safe_ranges = [(a..=b), …]; safe_ranges.iter().any(|range| range.contains(&c))`"""
+    src = open(os.path.join(REPO, 'pocket-types/src/json/json_escape.rs')).read()
+    m = re.search(r'fn is_safe_char\(c: u32\) -> bool \{\s*let safe_ranges = \[(.*?)\];\s*safe_ranges\.iter\(\)\.any\(\|range\| range\.contains\(&c\)\)\s*\}', src, re.S)
+    if not m:
+        raise Untranslatable('is_safe_char: not in its known shape (a list of ranges, any contains)')
+    parts = []
+    for r in re.findall(r'\(([^()]*)\)', m.group(1)):
+        p = P(tokenize(r))
+        parts.append(p.rng())
+        if p.peek() is not None:
+            raise Untranslatable('is_safe_char: range %r' % r)
+    if not parts:
+        raise Untranslatable('is_safe_char: no ranges')
+    return '(' + ' || '.join(parts) + ')', ' '.join(m.group(1).split())
+
+
+def tag_member_letter_pred():
+    """the letter test of a tag member `"#x"` in parse_json_filter: the condition on input[inpos + 1] between the test for `#`
+    and the test for the closing quote"""
+    src = open(os.path.join(REPO, 'pocket-types/src/filter.rs')).read()
+    m = re.search(r"&& input\[inpos\] == b'#'\s*&&(.*?)&& input\[inpos \+ 2\] == b'\"'", src, re.S)
+    if not m:
+        raise Untranslatable('parse_json_filter: the tag-member test was not found in its known shape')
+    body = ' '.join(m.group(1).split())
+    e = body.replace('input[inpos + 1]', 'self.0')
+    p = P(tokenize(e))
+    out = p.expr()
+    if p.peek() is not None:
+        raise Untranslatable('tag-member test: trailing %r' % p.peek())
+    return out, body
+
+
 HEAD = ['/- GENERATED by lib/srcfacts.py from the current working tree of /repo on every check run.  Do not edit: edit the translator.',
         '   What the source says now; the `…_from_source` theorems (Pocket/Lemmas/FromSource*.lean, Pocket/Thm) prove that the model agrees. -/',
         'namespace Pocket.Src', '']
@@ -263,6 +301,16 @@ def generate():
         H += ['def hexInverse : List Nat := untranslatable_source "HEX_INVERSE"', '']
         rep['untranslatable'].append(str(ex))
     H += ['end Pocket.Src', '']
+    E = list(HEAD)
+    for fn, lean, doc in ((safe_char_pred, 'isSafeChar', '`is_safe_char` (json_escape.rs)'), (tag_member_letter_pred, 'tagMemberLetter', 'the letter test of a `"#x"` member in `parse_json_filter`')):
+        try:
+            e, body = fn()
+            E += ['/-- %s: `%s` -/' % (doc, body.replace('-/', '- /')), 'def %s (k : Nat) : Bool := %s' % (lean, e), '']
+            rep['translated'].append(lean)
+        except Untranslatable as ex:
+            E += ['/-- %s could not be translated: %s -/' % (doc, str(ex).replace('-/', '- /')), 'def %s (k : Nat) : Bool := untranslatable_source "%s"' % (lean, lean), '']
+            rep['untranslatable'].append('%s: %s' % (lean, ex))
+    E += ['end Pocket.Src', '']
     L = list(HEAD)
     try:
         n = start_tags_len()
@@ -278,7 +326,7 @@ def generate():
         L += ['/-- every `const %s` of %s, in file order -/' % (name, rel), 'def %s : List Nat := %s' % (ident, vs)]
         rep['translated'].append('%s:%s=%s' % (rel, name, vs))
     L += ['', 'end Pocket.Src', '']
-    return {'Kind.lean': '\n'.join(K), 'Hex.lean': '\n'.join(H), 'Consts.lean': '\n'.join(L)}, rep
+    return {'Kind.lean': '\n'.join(K), 'Hex.lean': '\n'.join(H), 'Consts.lean': '\n'.join(L), 'Preds.lean': '\n'.join(E)}, rep
 
 
 def write():
